@@ -72,7 +72,17 @@ try:
             rr = sh(["/venv/bin/python", "-m", "pytest", "-q", "-p", "no:cacheprovider", path], env=env, cwd=wt)
             ok += rr.returncode == 0
         if ok < 3:
-            still.append(f"{f} (passes {ok}/3 on re-run)")
+            # is the test flaky on the pristine tree too? (un-apply the patch, run it 6 times, re-apply)
+            sh(["git", "-C", wt, "apply", "-R", os.path.join(sd, "patch.diff")])
+            pristine_fail = 0
+            for _ in range(6):
+                rr = sh(["/venv/bin/python", "-m", "pytest", "-q", "-p", "no:cacheprovider", path], env=env, cwd=wt)
+                pristine_fail += rr.returncode != 0
+            sh(["git", "-C", wt, "apply", os.path.join(sd, "patch.diff")])
+            if pristine_fail == 0:
+                still.append(f"{f} (passes {ok}/3 on re-run with the patch, 6/6 on the pristine tree)")
+            else:
+                out.setdefault("flaky_on_pristine", []).append(f"{f} (fails {pristine_fail}/6 on the pristine tree, passes {ok}/3 with the patch)")
     out["suite"] = {"tests": ntests, "failed_first_run": failed, "failed_not_flaky_after_rerun": still, "wall_s": round(time.time() - t0, 1)}
     out["suite_passes"] = not still and ntests > 800
     r = demo(env)
